@@ -397,7 +397,19 @@ int main(int argc, char **argv)
     QUERIES.push_back(atoms_query<Integer>("atoms<Integer>", [](const Basic &e) { return is_a<Integer>(e); }));
 
     std::vector<std::pair<std::string, B>> leaves = {{"x", X},          {"y", Y},   {"z", Z}, {"Dummy(x)", dx},          {"1", integer(1)}, {"2", integer(2)},
-                                                     {"1/2", Rt(1, 2)}, {"pi", pi}, {"I", I}, {"[0,1]", interval(integer(0), integer(1))}};
+                                                     {"1/2", Rt(1, 2)}, {"pi", pi}, {"I", I}, {"[0,1]", interval(integer(0), integer(1))},
+                                                     // structured leaves: Subs objects that BIND the user symbols x / y themselves (diff only binds fresh
+                                                     // _xi_N dummies), so a bound name can also occur free in a sibling (added after seeded change C39 escaped)
+                                                     {"Subs(D(g(x,y),x),x->z+1)", ([&]() -> B {
+                                                          map_basic_basic m;
+                                                          m[X] = add(Z, integer(1));
+                                                          return function_symbol("g", {X, Y})->diff(X)->subs(m);
+                                                      })()},
+                                                     {"Subs(D(f(y),y),y->2*x)", ([&]() -> B {
+                                                          map_basic_basic m;
+                                                          m[Y] = mul(integer(2), X);
+                                                          return function_symbol("f", Y)->diff(Y)->subs(m);
+                                                      })()}};
     for (auto &l : leaves)
         BD.SS.add(l.second, l.first, 0);
     const int n0 = BD.SS.size();
